@@ -316,3 +316,157 @@ func isByteType(t types.Type) bool {
 	b, ok := t.Underlying().(*types.Basic)
 	return ok && (b.Kind() == types.Uint8 || b.Kind() == types.Byte)
 }
+
+// ---- normal forms for fixed-width big-endian coding (hand-written shifts or encoding/binary) ----
+
+var binaryPut = map[string]int{"binary.(bigEndian).PutUint16": 2, "binary.(bigEndian).PutUint32": 4, "binary.(bigEndian).PutUint64": 8}
+var binaryPutLE = map[string]int{"binary.(littleEndian).PutUint16": 2, "binary.(littleEndian).PutUint32": 4, "binary.(littleEndian).PutUint64": 8}
+var binaryGet = map[string]int{"binary.(bigEndian).Uint16": 2, "binary.(bigEndian).Uint32": 4, "binary.(bigEndian).Uint64": 8}
+var binaryGetLE = map[string]int{"binary.(littleEndian).Uint16": 2, "binary.(littleEndian).Uint32": 4, "binary.(littleEndian).Uint64": 8}
+
+// fixedEncoding describes the bytes a statement list produces for one integer value.
+type fixedEncoding struct {
+	Width     int
+	Value     string // source text of the encoded value, conversions stripped
+	BigEndian bool
+	How       string
+}
+
+// encodingOf recognises how stmts (and the returned / written expression) encode an integer:
+//   - a []byte composite literal of byte(x>>k) items (ret),
+//   - p := make([]byte, W) followed by p[i] = byte(x>>k) stores,
+//   - p := make([]byte, W) / var a [W]byte followed by binary.BigEndian.PutUintW(p, uintW(x)),
+//   - a run of WriteByte(byte(x>>k)) calls.
+func encodingOf(info *types.Info, stmts []ast.Stmt, ret ast.Expr) (fixedEncoding, bool) {
+	if ret != nil {
+		if cl, ok := ast.Unparen(ret).(*ast.CompositeLit); ok && len(cl.Elts) > 0 {
+			var items []ByteItem
+			for _, e := range cl.Elts {
+				items = append(items, parseByteItem(info, e))
+			}
+			return fromItems(items, "composite literal")
+		}
+	}
+	// binary.BigEndian.PutUintW(buf, uintW(x))
+	for _, st := range stmts {
+		for _, c := range callsIn(st) {
+			name := calleeName(info, c)
+			if w, ok := binaryPut[name]; ok && len(c.Args) == 2 {
+				return fixedEncoding{Width: w, Value: stripConv(info, c.Args[1]), BigEndian: true, How: name}, true
+			}
+			if w, ok := binaryPutLE[name]; ok && len(c.Args) == 2 {
+				return fixedEncoding{Width: w, Value: stripConv(info, c.Args[1]), BigEndian: false, How: name}, true
+			}
+		}
+	}
+	// WriteByte runs
+	var items []ByteItem
+	for _, st := range stmts {
+		for _, c := range callsIn(st) {
+			if calleeName(info, c) == "bytes.(*Buffer).WriteByte" && len(c.Args) == 1 {
+				items = append(items, parseByteItem(info, c.Args[0]))
+			}
+		}
+	}
+	if len(items) > 0 {
+		return fromItems(items, "WriteByte run")
+	}
+	// indexed stores
+	var stores []ByteStore
+	for _, st := range stmts {
+		stores = append(stores, indexStores(info, st)...)
+	}
+	if len(stores) > 0 {
+		sort.Slice(stores, func(i, j int) bool { return stores[i].Off < stores[j].Off })
+		for i, s := range stores {
+			if s.Sym != "" || s.Off != i {
+				return fixedEncoding{}, false
+			}
+			items = append(items, s.Item)
+		}
+		return fromItems(items, "indexed stores")
+	}
+	return fixedEncoding{}, false
+}
+
+func fromItems(items []ByteItem, how string) (fixedEncoding, bool) {
+	n := len(items)
+	if n == 0 {
+		return fixedEncoding{}, false
+	}
+	be, le := true, true
+	for i, it := range items {
+		if it.IsConst || it.Base != items[0].Base {
+			return fixedEncoding{}, false
+		}
+		if it.Shift != 8*(n-1-i) {
+			be = false
+		}
+		if it.Shift != 8*i {
+			le = false
+		}
+	}
+	if !be && !le {
+		return fixedEncoding{Width: n, Value: items[0].Base, How: how + " (neither byte order)"}, true
+	}
+	return fixedEncoding{Width: n, Value: items[0].Base, BigEndian: be, How: how}, true
+}
+
+// fixedDecoding describes how an expression decodes bytes.
+type fixedDecoding struct {
+	Width     int
+	Base      string // the byte slice read
+	Offset    int
+	BigEndian bool
+	Conv      string // innermost signedness-relevant conversion: "int32", "int16", "int", "uint64", ...
+	How       string
+}
+
+// decodingOf recognises T(p[i])<<s | ... chains and T(binary.BigEndian.UintW(p)) calls.
+func decodingOf(info *types.Info, e ast.Expr) (fixedDecoding, bool) {
+	if reads, ok := parseOrChain(info, e); ok && len(reads) > 1 {
+		lo, n, be := isBigEndian(reads)
+		return fixedDecoding{Width: n, Base: reads[0].Base, Offset: lo, BigEndian: be, Conv: reads[0].Conv, How: "shift chain"}, true
+	}
+	// conversions around a binary.*Endian.UintW call: the innermost conversion decides sign extension
+	cur := ast.Unparen(e)
+	conv := ""
+	for {
+		c, ok := cur.(*ast.CallExpr)
+		if !ok {
+			return fixedDecoding{}, false
+		}
+		if tv, isT := info.Types[c.Fun]; isT && tv.IsType() && len(c.Args) == 1 {
+			conv = tv.Type.String()
+			cur = ast.Unparen(c.Args[0])
+			continue
+		}
+		name := calleeName(info, c)
+		if w, ok := binaryGet[name]; ok && len(c.Args) == 1 {
+			base, off := sliceBase(info, c.Args[0])
+			return fixedDecoding{Width: w, Base: base, Offset: off, BigEndian: true, Conv: conv, How: name}, true
+		}
+		if w, ok := binaryGetLE[name]; ok && len(c.Args) == 1 {
+			base, off := sliceBase(info, c.Args[0])
+			return fixedDecoding{Width: w, Base: base, Offset: off, BigEndian: false, Conv: conv, How: name}, true
+		}
+		return fixedDecoding{}, false
+	}
+}
+
+// sliceBase: p or p[k:] -> ("p", k)
+func sliceBase(info *types.Info, e ast.Expr) (string, int) {
+	e = ast.Unparen(e)
+	if sl, ok := e.(*ast.SliceExpr); ok {
+		off := 0
+		if sl.Low != nil {
+			if k, ok := constInt(info, sl.Low); ok {
+				off = int(k)
+			} else {
+				return exprStr(e), 0
+			}
+		}
+		return exprStr(sl.X), off
+	}
+	return exprStr(e), 0
+}
